@@ -27,6 +27,7 @@ type Prog struct {
 	recCache      map[*ssa.Function]bool
 	immutable     map[string]bool
 	errGlobals    map[string]int
+	tables        map[string]*tableData
 	globalInit    map[string]string
 }
 
@@ -248,6 +249,132 @@ func (p *Prog) isRecursive(fn *ssa.Function) bool {
 	r := reach(fn, 0)
 	p.recCache[fn] = r
 	return r
+}
+
+type tableData struct {
+	dims []int64
+	elem types.Type
+	vals []*bigInt // row-major
+}
+
+// GlobalTable returns the constant contents of an immutable package-level array
+// (of arrays) of integers whose initialiser is a composite literal of constants.
+func (p *Prog) GlobalTable(name string) *tableData {
+	if td, ok := p.tables[name]; ok {
+		return td
+	}
+	if p.tables == nil {
+		p.tables = map[string]*tableData{}
+	}
+	p.tables[name] = nil
+	if !p.immutable[name] {
+		return nil
+	}
+	pkgName, varName, _ := strings.Cut(name, ".")
+	for _, pk := range p.pkgs {
+		if pk.Name != pkgName {
+			continue
+		}
+		obj, ok := pk.Types.Scope().Lookup(varName).(*types.Var)
+		if !ok {
+			continue
+		}
+		var dims []int64
+		t := obj.Type()
+		for {
+			at, ok := t.Underlying().(*types.Array)
+			if !ok {
+				break
+			}
+			dims = append(dims, at.Len())
+			t = at.Elem()
+		}
+		if len(dims) == 0 || len(dims) > 2 {
+			return nil
+		}
+		if _, _, ok := intInfo(t); !ok {
+			return nil
+		}
+		total := int64(1)
+		for _, d := range dims {
+			total *= d
+		}
+		if total > 1<<16 {
+			return nil
+		}
+		// find the initialiser
+		var init ast.Expr
+		for _, f := range pk.Syntax {
+			for _, d := range f.Decls {
+				gd, ok := d.(*ast.GenDecl)
+				if !ok || gd.Tok != token.VAR {
+					continue
+				}
+				for _, sp := range gd.Specs {
+					vs := sp.(*ast.ValueSpec)
+					for i, n := range vs.Names {
+						if n.Name == varName && i < len(vs.Values) {
+							init = vs.Values[i]
+						}
+					}
+				}
+			}
+		}
+		cl, ok := init.(*ast.CompositeLit)
+		if !ok {
+			return nil
+		}
+		td := &tableData{dims: dims, elem: t, vals: make([]*bigInt, total)}
+		for i := range td.vals {
+			td.vals[i] = new(bigInt)
+		}
+		var fill func(cl *ast.CompositeLit, level int, base int64) bool
+		fill = func(cl *ast.CompositeLit, level int, base int64) bool {
+			stride := int64(1)
+			for _, d := range dims[level+1:] {
+				stride *= d
+			}
+			idx := int64(0)
+			for _, el := range cl.Elts {
+				if kv, ok := el.(*ast.KeyValueExpr); ok {
+					tv, ok := pk.TypesInfo.Types[kv.Key]
+					if !ok || tv.Value == nil {
+						return false
+					}
+					k, _ := new(bigInt).SetString(tv.Value.ExactString(), 10)
+					idx = k.Int64()
+					el = kv.Value
+				}
+				if idx >= dims[level] {
+					return false
+				}
+				if level+1 < len(dims) {
+					sub, ok := el.(*ast.CompositeLit)
+					if !ok || !fill(sub, level+1, base+idx*stride) {
+						return false
+					}
+				} else {
+					tv, ok := pk.TypesInfo.Types[el]
+					if !ok || tv.Value == nil {
+						return false
+					}
+					v, ok := new(bigInt).SetString(tv.Value.ExactString(), 10)
+					if !ok {
+						return false
+					}
+					td.vals[base+idx] = v
+				}
+				idx++
+			}
+			return true
+		}
+		if !fill(cl, 0, 0) {
+			return nil
+		}
+		p.tables[name] = td
+		return td
+	}
+	return nil
 }
 
 // FindFunc resolves a contract key within a package.
